@@ -87,6 +87,11 @@ def _exec(self, s, st, frame):
         cur = self.eval(load, st)
         rhs = self.eval(s.value, st)
         v = self.binop(s.op, cur, rhs, s)
+        if isinstance(s.target, ast.Name) and isinstance(cur, Num) and cur.is_array and cur.view_of:
+            # numpy augmented assignment on an array works in place: the caller's data changes
+            self.events.append(('inplace', s, cur.view_of, self.cur.qname if self.cur else ''))
+            if isinstance(v, Num):
+                v.view_of = cur.view_of
         from .interp_expr import elementwise_seg
         elementwise_seg(s.op, cur, rhs, v)
         self.bind(s.target, v, st, s)
@@ -244,6 +249,8 @@ def store_subscript(self, t, v, st, node):
     if isinstance(base, Num):
         nv = tonum(v)
         self.events.append(('store', node, base.shape, taint_of(v) | self.pc, taint_of(idx), self.cur.qname if self.cur else ''))
+        if base.view_of:
+            self.events.append(('inplace', node, base.view_of, self.cur.qname if self.cur else ''))
         if nv is None:
             if not isinstance(v, TopV):
                 self.unsupported('store of %s into an array' % type(v).__name__, node)
@@ -266,6 +273,7 @@ def store_subscript(self, t, v, st, node):
                 new.rv = True if nv.rv and False else None
             new.nonneg = (b0.nonneg or b0.zero) and nv.nonneg
             new.role = base.role
+            new.view_of = base.view_of
             new.mirror = nv.mirror if (b0.zero or b0.mirror == nv.mirror) else False
             if nv.zero:
                 new.mirror = b0.mirror
